@@ -1,12 +1,17 @@
 /-
-  Aqv.Model.FeedMu — the prologue of `Feed.Send` (aqua/event/feed.go) with `f.mu` and the element-type check made
-  explicit.  The main model (Aqv.Model.Feed) treats every `f.mu` section as one atomic step and only has well-typed
-  calls; this file documents what the code does on the misuse path "value of the wrong type": it puts the sendLock token
-  back and panics WITHOUT unlocking `f.mu`.
+  Aqv.Model.FeedMu — the prologues of `Feed.Send` and `Feed.Subscribe` (aqua/event/feed.go) with `f.mu`, the sendLock
+  token and the lazily initialised element type `f.etype` made explicit, as sequences of primitive operations.
+  The main model (Aqv.Model.Feed) treats every `f.mu` section as one atomic step and only has well-typed calls; this file
+  names two facts about the code as written:
+  * `f.etype` is read and WRITTEN (first use) by `typecheck`, and both callers run it with `f.mu` held — the obligation
+    whose violation is a data race between the first Send and the first Subscribe/Send on a fresh feed
+    (`accessesGuarded`, theorem `etype_write_requires_mu`);
+  * on the misuse path "value of the wrong type" Send puts the token back and panics WITHOUT unlocking `f.mu`
+    (`send_type_mismatch_panics_with_lock_held_witness`).
 -/
 namespace Aqv.FeedMu
 
-/-- the part of the Feed touched by the prologue of Send; element types are numbered -/
+/-- the part of the Feed touched by the prologues; element types are numbered -/
 structure Pro where
   tokenFree : Bool          -- sendLock holds its token
   muLocked : Bool           -- f.mu is held
@@ -17,14 +22,59 @@ inductive Outcome
   | proceeds | panics
   deriving DecidableEq, Repr
 
-/-- `<-f.sendLock; f.mu.Lock(); merge inbox; if !f.typecheck(T) { f.sendLock <- struct{}{}; panic(...) }; f.mu.Unlock()` -/
-def sendPrologue (s : Pro) (ty : Nat) : Pro × Outcome :=
-  let s1 := { s with tokenFree := false, muLocked := true }
-  match s1.etype with
-  | none => ({ s1 with etype := some ty, muLocked := false }, .proceeds)
-  | some t =>
-    if t = ty then ({ s1 with muLocked := false }, .proceeds)
-    else ({ s1 with tokenFree := true }, .panics)      -- the token is returned, f.mu is not
+inductive Op
+  | takeToken               -- <-f.sendLock
+  | putToken                -- f.sendLock <- struct{}{}
+  | lockMu | unlockMu       -- f.mu.Lock() / f.mu.Unlock()
+  | readEtype               -- typecheck: `f.etype == nil`, `f.etype == typ`
+  | writeEtype (ty : Nat)   -- typecheck: `f.etype = typ` (first use only)
+  | panic
+  deriving DecidableEq, Repr
+
+def apply (s : Pro) : Op → Pro
+  | .takeToken => { s with tokenFree := false }
+  | .putToken => { s with tokenFree := true }
+  | .lockMu => { s with muLocked := true }
+  | .unlockMu => { s with muLocked := false }
+  | .readEtype => s
+  | .writeEtype ty => { s with etype := some ty }
+  | .panic => s
+
+/-- `typecheck(ty)` on a feed whose element type is `et`: the accesses it makes, and whether it succeeds -/
+def typecheckOps (et : Option Nat) (ty : Nat) : List Op × Bool :=
+  match et with
+  | none => ([.readEtype, .writeEtype ty], true)
+  | some t => ([.readEtype], t == ty)
+
+/-- Send, from `<-f.sendLock` to the `f.mu.Unlock()` after the inbox merge, as written:
+    `<-f.sendLock; f.mu.Lock(); merge; if !f.typecheck(T) { f.sendLock <- struct{}{}; panic(...) }; f.mu.Unlock()` -/
+def sendOps (et : Option Nat) (ty : Nat) : List Op :=
+  let (tc, ok) := typecheckOps et ty
+  [.takeToken, .lockMu] ++ tc ++ (if ok then [.unlockMu] else [.putToken, .panic])
+
+/-- Subscribe: `f.mu.Lock(); defer f.mu.Unlock(); if !f.typecheck(T) { panic(...) }; f.inbox = append(...)` -/
+def subscribeOps (et : Option Nat) (ty : Nat) : List Op :=
+  let (tc, ok) := typecheckOps et ty
+  [.lockMu] ++ tc ++ (if ok then [.unlockMu] else [.panic, .unlockMu])     -- the deferred Unlock also runs on panic
+
+def runOps (s : Pro) (ops : List Op) : Pro × Outcome :=
+  (ops.foldl apply s, if ops.contains .panic then .panics else .proceeds)
+
+def sendPrologue (s : Pro) (ty : Nat) : Pro × Outcome := runOps s (sendOps s.etype ty)
+
+/-- every access to `f.etype` in the sequence is made while this goroutine holds `f.mu` -/
+def accessesGuarded (held : Bool) : List Op → Bool
+  | [] => true
+  | .lockMu :: r => accessesGuarded true r
+  | .unlockMu :: r => accessesGuarded false r
+  | .readEtype :: r => held && accessesGuarded held r
+  | .writeEtype _ :: r => held && accessesGuarded held r
+  | _ :: r => accessesGuarded held r
+
+/-- the shape of seeded change C19-3: the type check hoisted in front of `<-f.sendLock` and `f.mu.Lock()` -/
+def sendOpsHoisted (et : Option Nat) (ty : Nat) : List Op :=
+  let (tc, ok) := typecheckOps et ty
+  tc ++ (if ok then [.takeToken, .lockMu, .unlockMu] else [.panic])
 
 /-- Subscribe, Send and remove all begin a critical section with `f.mu.Lock()` -/
 def canLockMu (s : Pro) : Bool := !s.muLocked
